@@ -126,6 +126,9 @@ SCENARIOS = collections.OrderedDict([
     ("include-nested", ("inited", [CREATE, {"api": "compile", "xsl": {"file": "inc3_main.xsl"}, "as": "s"},
                                    T({"file": "in.xml"}, {"compiled": "s"}), DESTROY], "quick")),
     ("include-bad-xpath", ("inited", [CREATE, {"api": "compile", "xsl": {"file": "inc_main_badxpath.xsl"}, "as": "s"}, DESTROY], "thorough")),
+    # many value objects of every kind alive at once (arenas of several blocks, released out of creation order), exsl:node-set() of
+    # strings / numbers / booleans / node-sets
+    ("arenas", ("inited", [CREATE, T({"file": "arenas_in.xml"}, {"file": "arenas.xsl"}), DESTROY], "thorough")),
     ("init-terminate", ("raw", [{"api": "initialize"}, {"api": "terminate"}], "thorough")),
     ("shared-manager", ("raw", [{"api": "initialize"}, CREATE, T({"text": XML_SMALL}, {"text": XSL_SMALL}), DESTROY, {"api": "terminate"}], "thorough")),
 ])
@@ -138,7 +141,7 @@ for _f in sorted(os.listdir(os.path.join(ROOT, "corpus", "c19"))):
     if (_f.startswith("rtfail-") or _f.startswith("rtwarn-")) and _f.endswith(".xsl"):
         SCENARIOS[_f[:-4]] = ("inited", [CREATE, T({"file": "rt_in.xml"}, {"file": _f}), DESTROY], "thorough")
 
-QUICK_STRIDE = {"import-bad-element": 5, "include": 7, "include-bad-xpath": 7, "files": 9, "fail-xpath": 11, "rich": 17, "shared-manager": 53, "init-terminate": 59, "reuse": 23}   # sampled in quick
+QUICK_STRIDE = {"import-bad-element": 5, "include": 7, "include-bad-xpath": 7, "files": 9, "fail-xpath": 11, "rich": 17, "shared-manager": 53, "init-terminate": 59, "reuse": 23, "arenas": 131}   # sampled in quick
 ASAN_QUICK = {"streams": 7, "compiled-parsed": 13, "fail-message": 11, "import-bad-xpath": 5}          # scenario -> stride of k under ASan (quick)
 ASAN_THOROUGH = {"import": 3, "import-bad-xpath": 1, "import-bad-element": 3, "include-bad-xpath": 3, "streams": 1, "compiled-parsed": 1, "fail-message": 1, "rich": 3, "shared-manager": 7, "fail-parse": 3, "fail-compile": 3}
 
@@ -538,6 +541,14 @@ def run(res, tier, seed):
     res.notes["rtfail_sites"] = sites
     res.notes["rtfail_not_failing"] = sorted(n for n, v in sites.items() if not v.startswith("error"))
 
+    big_requests = {}
+    for n in scen:
+        if counts[n][1]:
+            for e in vlib.read_ndjson(counts[n][1]):
+                if e.get("e") == "DiscardManager" and "big" in e:
+                    big_requests[n] = e["big"]
+    res.notes["large_requests_per_scenario"] = {n: len(v) for n, v in big_requests.items() if v}
+
     # ---- the sweep plan
     def ks_for(name, n, build):
         if n is None:
@@ -560,7 +571,13 @@ def run(res, tier, seed):
         if not stride:
             return []
         off = (seed - 1) % stride
-        return [k for k in range(1 + off, n + 1, stride)]
+        ks = set(range(1 + off, n + 1, stride))
+        if stride > 1 and not name.startswith("hist-"):
+            # besides the stride: the requests for LARGE blocks (an arena, a deque or a vector grows there while its objects are alive)
+            big = big_requests.get(name, [])
+            step_ = max(1, len(big) // 60)
+            ks.update(big[(seed - 1) % step_::step_])
+        return sorted(k for k in ks if k <= n)
 
     stats = {"executions": 0, "accepted": 0, "terminate_known": 0, "failures_injected": 0}
     fail_sites = set()
